@@ -48,8 +48,83 @@ def pure_data(v: Any) -> bool:
     return isinstance(v, (str, int, float, bool)) or v is None
 
 
+class PathStub(Native):
+    """pathlib.Path over the virtual file system (the operations writers/readers plausibly use)."""
+
+    def __init__(self, vfs: VFS, path: Any, opener: Any) -> None:
+        self._vfs, self._p, self._open = vfs, str(path), opener
+
+    def __str__(self) -> str:
+        return self._p
+
+    def __fspath__(self) -> str:
+        return self._p
+
+    def __eq__(self, o: Any) -> bool:
+        return isinstance(o, PathStub) and o._p == self._p
+
+    def __hash__(self) -> int:
+        return hash(self._p)
+
+    def __truediv__(self, other: Any) -> "PathStub":
+        return PathStub(self._vfs, self._p.rstrip("/") + "/" + str(other), self._open)
+
+    @property
+    def name(self) -> str:
+        return self._p.rsplit("/", 1)[-1]
+
+    @property
+    def suffix(self) -> str:
+        nm = self.name
+        return "." + nm.rsplit(".", 1)[1] if "." in nm.strip(".") else ""
+
+    @property
+    def stem(self) -> str:
+        nm = self.name
+        return nm.rsplit(".", 1)[0] if "." in nm.strip(".") else nm
+
+    @property
+    def parent(self) -> "PathStub":
+        return PathStub(self._vfs, self._p.rsplit("/", 1)[0] or "/", self._open)
+
+    def exists(self) -> bool:
+        return self._p in self._vfs.files
+
+    def is_file(self) -> bool:
+        return self._p in self._vfs.files
+
+    def resolve(self, *a: Any, **k: Any) -> "PathStub":
+        return self
+
+    def absolute(self) -> "PathStub":
+        return self
+
+    def open(self, mode: str = "r", buffering: int = -1, encoding: Optional[str] = None, **kw: Any) -> Any:
+        return self._open(self._p, mode, encoding=encoding, **kw)
+
+    def write_text(self, data: Any, encoding: Optional[str] = None, errors: Optional[str] = None,
+                   newline: Optional[str] = None) -> int:
+        if not isinstance(data, str):
+            raise AbsRaise(f"TypeError: data must be str, not {type(data).__name__}")
+        f = self._open(self._p, "w", encoding=encoding)
+        return f.write(data)
+
+    def write_bytes(self, data: Any) -> int:
+        f = self._open(self._p, "wb")
+        return f.write(data)
+
+    def read_text(self, encoding: Optional[str] = None, errors: Optional[str] = None) -> Any:
+        return self._open(self._p, "r", encoding=encoding).read()
+
+    def read_bytes(self) -> Any:
+        return self._open(self._p, "rb").read()
+
+
 def install_io(it: Interp, vfs: VFS) -> None:
-    def _open(path: Any, mode: str = "r", encoding: Optional[str] = None, **kw: Any) -> Any:
+    def _open(path: Any, mode: str = "r", buffering: int = -1, encoding: Optional[str] = None, **kw: Any) -> Any:
+        if isinstance(buffering, str) and encoding is None:      # open(path, mode, encoding) never happens; guard
+            encoding, buffering = buffering, -1
+        path = str(path) if isinstance(path, PathStub) else path
         vfs.opens.append({"path": path, "mode": mode, "encoding": encoding})
         if "r" in mode and path not in vfs.files:
             raise AbsRaise(f"FileNotFoundError: {path}")
@@ -69,6 +144,9 @@ def install_io(it: Interp, vfs: VFS) -> None:
             return json.loads(data)
         return data
     it.native["builtins.open"] = _open
+    it.native["pathlib.Path"] = lambda *parts: PathStub(vfs, "/".join(str(x) for x in parts), _open)
+    it.native["pathlib.PurePath"] = it.native["pathlib.Path"]
+    it.native["os.fspath"] = lambda p_: str(p_)
     it.native["json.dumps"] = dumps
     it.native["json.dump"] = dump
     it.native["json.load"] = load
